@@ -459,6 +459,9 @@ structure GlobalFacts where
   statics : List StaticFact
   /-- every `static` declared in a `thread_local!` (round 4 of C12: state keyed by the running thread) -/
   threadLocalTables : List ThreadLocalFact := []
+  /-- occurrences of the identity of the running thread (`thread::current`, `ThreadId`) under src/:
+  state keyed by it is thread-affine without any `thread_local!` -/
+  threadIdUses : Nat := 0
   deriving Repr
 
 /-- the mode in which a use of a lock-shaped global acquires it -/
@@ -539,9 +542,9 @@ def TlFn.fallsThrough (f : TlFn) : Bool :=
   !f.ops.contains .other && (!f.ops.contains .lookup || f.sharedAfterLookup)
 
 /-- the decision about thread-local state: every thread-local table is a PURE CACHE —
-no function answers from the running thread's table alone -/
+no function answers from the running thread's table alone, and nothing asks which thread is running -/
 def threadLocalsPureCaches (f : GlobalFacts) : Bool :=
-  f.threadLocalTables.all (fun t => t.fns.all TlFn.fallsThrough)
+  f.threadIdUses == 0 && f.threadLocalTables.all (fun t => t.fns.all TlFn.fallsThrough)
 
 /-- what a lookup function answers on thread `t` for key `k`: `shared` is the table of
 the process (entries are frozen once inserted), `cache t` the table of thread `t` -/
